@@ -371,7 +371,8 @@ def verify_function(lib, cls, fname, fnode, con, timeout_ms=10000, want_models=T
         obligs = [ob for ob in obligs if any(s in ob.name for s in only)]
     if only_prop:
         # a property check decides the obligations tagged with that property (the others belong to other checks)
-        obligs = [ob for ob in obligs if only_prop in ob.props]
+        wanted = only_prop if isinstance(only_prop, (tuple, list, set)) else (only_prop,)
+        obligs = [ob for ob in obligs if any(w in ob.props for w in wanted)]
     groups = {}
     order = []
     for ob in obligs:
